@@ -23,6 +23,10 @@ import (
 )
 
 func main() {
+	if len(os.Args) > 1 && os.Args[1] == "probe-statements" {
+		probeStatements()
+		return
+	}
 	logrus.SetOutput(io.Discard)
 	cfg := vc.ParseFlags()
 	rep := vc.NewReport(cfg)
@@ -32,7 +36,11 @@ func main() {
 	case "C17":
 		runC17(cfg, rep)
 	case "C04":
-		runC04(cfg, rep)
+		if cfg.Mode == "decode" {
+			runC04Decode(cfg, rep)
+		} else {
+			runC04(cfg, rep)
+		}
 	default:
 		fmt.Fprintln(os.Stderr, "sqlmon: unknown property", cfg.Prop)
 		os.Exit(3)
